@@ -35,6 +35,14 @@ package socks
 //@ func SubNegotiationClient(conn net.Conn) (h NegotiationHeader, err error)
 //@   requires nonnil: conn != nil
 //@   modifies ghostbytes(conn, "consumed")
+// C15: the request is read field by field as RFC 1928 lays it out (st(k) = k-th byte of the stream):
+// VER CMD RSV ATYP, then 4 / [len] len / 16 address bytes, then the port, high byte first.
+//@ spec st(r, k) = uf_stream(r, k)
+//@ spec alen(r) = ite(st(r, 3) == 1, 4, ite(st(r, 3) == 4, 16, st(r, 4)))
+//@ spec aoff(r) = ite(st(r, 3) == 3, 5, 4)
 //@ func ReadSocksHeader(conn net.Conn) (h SocksHeader, err error)
 //@   requires nonnil: conn != nil
 //@   modifies ghostbytes(conn, "consumed")
+//@   ensures-local fixed: err == nil ==> (h.Version == st(reader, 0) && h.Version == 5 && h.Command == st(reader, 1) && h.RSV == st(reader, 2) && h.ATYP == st(reader, 3) && (h.ATYP == 1 || h.ATYP == 3 || h.ATYP == 4))
+//@   ensures-local addr:  err == nil ==> (len(h.IpDomain) == alen(reader) && forall(k, 0, alen(reader), h.IpDomain[k] == st(reader, aoff(reader) + k)))
+//@   ensures-local port:  err == nil ==> h.Port == st(reader, aoff(reader) + alen(reader)) * 256 + st(reader, aoff(reader) + alen(reader) + 1)
